@@ -331,7 +331,7 @@ func checkC15(tier string) int {
 			return world.Params{Frankenstein: 1, NumGenesisVals: 4, NumCandidates: 1, NumWitnesses: 3 + i%2}
 		},
 		newMon: func(w *world.World) func(run *hist.Runner, blk *hist.Block) []mon.Finding {
-			return wrapStateful(mon.C15)
+			return wrapStateful(mon.NewC15().OnBlock)
 		},
 		gates: map[string]int{"ok:ETH_LOCK": 2, "ok:ETH_REDEEM": 1, "ok:ERC20_LOCK": 1, "ok:ETH_REPORT_FINALITY_MINT": 8},
 	}, tier)
